@@ -44,6 +44,8 @@ typedef struct
     int repeat;
 } scene_t;
 
+static void decode_scene_upto (const scenario_t *sc, scene_t *s, int upto, pixman_image_t *img);
+
 /* ------------------------------------------------------------ reference */
 
 static int
@@ -214,11 +216,9 @@ typedef struct
     int n_req;
 } run_t;
 
-static pixman_image_t *
-build_source (scene_t *s)
+static void
+apply_state (pixman_image_t *img, const scene_t *s)
 {
-    pixman_image_t *img = pixman_image_create_bits (s->fmt, s->w, s->h, (uint32_t *)s->bits, s->stride);
-    if (!img) return NULL;
     if (s->has_transform)
     {
 	pixman_transform_t t;
@@ -231,20 +231,40 @@ build_source (scene_t *s)
     else
 	pixman_image_set_filter (img, s->filter, NULL, 0);
     pixman_image_set_repeat (img, s->repeat);
+}
+
+static pixman_image_t *
+build_source (const scenario_t *sc, scene_t *s)
+{
+    pixman_image_t *img = pixman_image_create_bits (s->fmt, s->w, s->h, (uint32_t *)s->bits, s->stride);
+    scene_t h;
+    if (!img) return NULL;
+    /* replay the setter history on the image */
+    h = *s;
+    h.has_transform = 0; h.filter = PIXMAN_FILTER_NEAREST; h.repeat = 0; h.n_params = 0; h.cw = h.ch = 1;
+    decode_scene_upto (sc, &h, sc->n_ops, img);
     return img;
 }
 
 #define A(i) ((i) < op->n ? op->a[(i)] : 0)
 
+static void apply_state (pixman_image_t *img, const scene_t *s);
+
+/* decode the scenario up to (not including) op `upto`; when img is given, every
+ * setter op is also applied to it in order, so that the image has the scenario's
+ * HISTORY of setter calls while the reference sampler only knows the final state */
 static void
-decode_scene (const scenario_t *sc, scene_t *s)
+decode_scene_upto (const scenario_t *sc, scene_t *s, int upto, pixman_image_t *img)
 {
     int j, i;
-    memset (s, 0, sizeof *s);
-    s->fmt = PIXMAN_a8r8g8b8; s->w = s->h = 1; s->filter = PIXMAN_FILTER_NEAREST; s->cw = s->ch = 1;
-    for (j = 0; j < sc->n_ops; j++)
+    uint8_t *keep = s->bits;
+    if (!img) { memset (s, 0, sizeof *s); keep = NULL; }
+    s->bits = keep;
+    if (!img) { s->fmt = PIXMAN_a8r8g8b8; s->w = s->h = 1; s->filter = PIXMAN_FILTER_NEAREST; s->cw = s->ch = 1; }
+    for (j = 0; j < upto; j++)
     {
 	const sim_op_t *op = &sc->ops[j];
+	if (img && op->kind == S_SRC) continue;
 	switch (op->kind)
 	{
 	case S_SRC:
@@ -294,8 +314,15 @@ decode_scene (const scenario_t *sc, scene_t *s)
 	    s->repeat = (int)sim_mod (A (0), 4);
 	    break;
 	}
+	if (img && (op->kind == S_TRANSFORM || op->kind == S_FILTER || op->kind == S_REPEAT)) apply_state (img, s);
     }
     if (!s->bits) { s->bits = calloc (16, 1); s->stride = 4; }
+}
+
+static void
+decode_scene (const scenario_t *sc, scene_t *s)
+{
+    decode_scene_upto (sc, s, sc->n_ops, NULL);
 }
 
 static void
@@ -309,7 +336,7 @@ chain_thread (void *p)
     int j, k = 0;
     chain_install (r->chain);
     decode_scene (sc, &s);
-    src = build_source (&s);
+    src = build_source (sc, &s);
     dst = pixman_image_create_bits (PIXMAN_a8r8g8b8, DW, DH, dbits, DW * 4);
     for (j = 0; j < sc->n_ops && src && dst; j++)
     {
@@ -487,6 +514,21 @@ generate (uint64_t seed, int tier, const char *property, scenario_t *sc)
 	a[n++] = filter; a[n++] = cw; a[n++] = ch; a[n++] = xb; a[n++] = yb;
 	cnt = filter == PIXMAN_FILTER_CONVOLUTION ? cw * ch : filter == PIXMAN_FILTER_SEPARABLE_CONVOLUTION ? (1 << xb) * cw + (1 << yb) * ch : 0;
 	for (i = 0; i < cnt; i++) a[n++] = rng_chance (&r, 1, 5) ? 0 : rng_range (&r, 0, 65536);
+	if (cnt && rng_chance (&r, 1, 2))
+	{
+	    /* a history: the same kind and size of filter was set before, with the same
+	     * leading coefficients and different later ones */
+	    int64_t b[SIM_MAX_ARGS];
+	    int keep = (int)rng_range (&r, 1, cnt > 3 ? 3 : cnt);
+	    memcpy (b, a, sizeof (int64_t) * n);
+	    for (i = keep; i < cnt; i++) b[5 + i] = rng_range (&r, 0, 65536);
+	    sc_addv (sc, S_FILTER, n, b);
+	}
+	else if (rng_chance (&r, 1, 4))
+	{
+	    int64_t b[5] = { rng_n (&r, 5), 1, 1, 0, 0 };
+	    sc_addv (sc, S_FILTER, 5, b);
+	}
 	sc_addv (sc, S_FILTER, n, a);
     }
     sc_add (sc, S_REPEAT, 1, (int64_t)rng_n (&r, 4));
